@@ -111,6 +111,7 @@ func checkC05(ctx *Ctx, r *Report) {
 	c05Parsers(ctx, r)
 	c05ParserErrors(ctx, r)
 	c05FreshRefsBacked(ctx, r)
+	c05RemovedObjectsRewrittenEverywhere(ctx, r, eng)
 }
 
 // ---------------------------------------------------------------------------
@@ -1419,3 +1420,57 @@ func c05FreshRefsBacked(ctx *Ctx, r *Report) {
 	r.Count("references to computed names built by passes", n)
 	r.Floor("references to computed names built by passes", 3)
 }
+
+// c05RemovedObjectsRewrittenEverywhere: a pass that removes objects from a schema has to redirect *every* reference to
+// them — references sit in list items, map values, union branches, nested structs, not only directly in struct fields.
+// The shared Visitor offers exactly that (OnRef is called for every reference position; traverse/visitor-position
+// checks its completeness). A pass that calls Objects.Remove and rewrites references by hand over struct fields only
+// leaves the other positions dangling. RemoveIntersections (Java chain) does: recorded finding.
+func c05RemovedObjectsRewrittenEverywhere(ctx *Ctx, r *Report, eng *effectsEngine) {
+	pkg := ctx.Pkg("internal/ast/compiler")
+	if pkg == nil {
+		return
+	}
+	info := pkg.TypesInfo
+	visitorT := ctx.LookupType("internal/ast/compiler", "Visitor")
+	n := 0
+	for _, p := range allPasses(ctx, eng) {
+		removes := false
+		hasOnRef := false
+		for _, fd := range methodsOf(ctx, p.named) {
+			ast.Inspect(fd.Body, func(m ast.Node) bool {
+				switch x := m.(type) {
+				case *ast.CallExpr:
+					if sel, ok := x.Fun.(*ast.SelectorExpr); ok && sel.Sel.Name == "Remove" && strings.HasSuffix(exprString(sel.X), ".Objects") {
+						removes = true
+					}
+				case *ast.CompositeLit:
+					if namedOf(info.TypeOf(x)) == visitorT {
+						for _, el := range x.Elts {
+							if kv, ok := el.(*ast.KeyValueExpr); ok {
+								if id, ok := kv.Key.(*ast.Ident); ok && id.Name == "OnRef" {
+									hasOnRef = true
+								}
+							}
+						}
+					}
+				}
+				return true
+			})
+		}
+		if !removes {
+			continue
+		}
+		n++
+		name := p.named.Obj().Name()
+		why := c05RemovalExempt[name]
+		r.Check(hasOnRef || why != "", "traverse/removed-object-references-rewritten", name+" redirects references to the objects it removes", p.named.Obj().Pos(),
+			map[bool]string{true: "through the visitor's OnRef callback (every reference position)", false: "reviewed: " + why}[hasOnRef],
+			name+" removes objects from the schema (Objects.Remove) but has no OnRef callback: it rewrites the references it finds directly in struct fields only — a list, map or union that refers to a removed object keeps a dangling reference (Java: `List<Variable>` with no class Variable)")
+	}
+	r.Count("passes removing objects from a schema", n)
+	r.Floor("passes removing objects from a schema", 1)
+}
+
+// passes that call Objects.Remove for a reviewed reason (none today: Omit and FilterSchemas filter the ordered map)
+var c05RemovalExempt = map[string]string{}
